@@ -61,55 +61,77 @@ Proof.
     destruct (IH _ Hn H); auto.
 Qed.
 
+(* the response whose memory the reader has already added while it waits in Enqueue *)
+Definition pc_added (pc : rpc) : list resp := match pc with REnq _ _ _ r => [r] | _ => [] end.
+Definition accounted (st : state) : list resp := concat (st_senders st) ++ pc_added (st_reader st).
+
 Definition pend_inv (cfg : config) (st : state) : Prop :=
-  st_pending st = mem_sum cfg (concat (st_senders st)).
+  st_pending st = mem_sum cfg (accounted st).
 
 (* never more than one response above the limit *)
 Definition pend_bound (cfg : config) (st : state) : Prop :=
   st_pending st = 0 \/
-  exists r, In r (concat (st_senders st)) /\ st_pending st < c_limit cfg + resp_mem cfg r.
+  exists r, In r (accounted st) /\ st_pending st < c_limit cfg + resp_mem cfg r.
 
 Lemma step_pending : forall v cfg db st o st' evs,
   pend_inv cfg st -> pend_bound cfg st -> step v cfg db st o = Some (st', evs) ->
   pend_inv cfg st' /\ pend_bound cfg st'.
 Proof.
-  intros v cfg db st o st' evs HI HB H. unfold pend_inv, pend_bound in *.
+  intros v cfg db st o st' evs HI HB H. unfold pend_inv, pend_bound, accounted in *.
+  assert (Hsame : forall st1, st_senders st1 = st_senders st -> st_pending st1 = st_pending st ->
+                  pc_added (st_reader st1) = pc_added (st_reader st) ->
+                  st_pending st1 = mem_sum cfg (concat (st_senders st1) ++ pc_added (st_reader st1)) /\
+                  (st_pending st1 = 0 \/ exists r, In r (concat (st_senders st1) ++ pc_added (st_reader st1)) /\
+                                                   st_pending st1 < c_limit cfg + resp_mem cfg r)).
+  { intros st1 E1 E2 E3. rewrite E1, E2, E3. auto. }
   destruct o as [rq|p| | | |i]; simpl in H.
   - destruct (c_maxchunks cfg <? r_chunks rq).
-    + inversion H; subst. simpl. auto.
-    + destruct (16 <=? N.of_nat (length (st_chreq st))); [discriminate|]. inversion H; subst. simpl. auto.
-  - destruct (128 <=? N.of_nat (length (st_chunreg st))); [discriminate|]. inversion H; subst. simpl. auto.
-  - destruct (st_reader st); try discriminate. destruct (st_chreq st) as [|rq0 rest0]; [discriminate|].
-    inversion H; subst. simpl. auto.
-  - destruct (st_reader st); try discriminate. destruct (st_chunreg st) as [|p0 rest0]; [discriminate|].
-    inversion H; subst. simpl. auto.
-  - destruct (st_reader st) as [|rq|rq i ss|rq i ss r0] eqn:Epc; try discriminate.
+    + inversion H; subst. apply Hsame; reflexivity.
+    + destruct (16 <=? N.of_nat (length (st_chreq st))); [discriminate|]. inversion H; subst. apply Hsame; reflexivity.
+  - destruct (128 <=? N.of_nat (length (st_chunreg st))); [discriminate|]. inversion H; subst. apply Hsame; reflexivity.
+  - destruct (st_reader st) eqn:Epc; try discriminate. destruct (st_chreq st) as [|rq0 rest0]; [discriminate|].
+    inversion H; subst. apply Hsame; simpl; try rewrite Epc; reflexivity.
+  - destruct (st_reader st) eqn:Epc; try discriminate. destruct (st_chunreg st) as [|p0 rest0]; [discriminate|].
+    inversion H; subst. apply Hsame; simpl; try rewrite Epc; reflexivity.
+  - destruct (st_reader st) as [|rq|rq i ss|rq i ss r0|rq i ss r0] eqn:Epc; try discriminate.
     + destruct (st_pending st <? c_limit cfg); [|discriminate].
       destruct (reader_top v cfg st rq) as [st1 e1] eqn:Et. inversion H; subst.
-      destruct (reader_top_resps _ _ _ _ _ _ Et) as [Hs [_ [Hp _]]]. rewrite Hs, Hp. auto.
+      destruct (reader_top_resps _ _ _ _ _ _ Et) as [Hs [Hpc [Hp _]]]. apply Hsame; auto.
+      simpl. destruct (st_reader st'); simpl in *; try reflexivity; discriminate.
     + inversion H; subst. unfold reader_chunk.
       destruct ((i <? r_chunks rq) && negb (s_done ss)).
       * destruct (foreach db (s_next ss) (s_stop ss) (r_num rq) (r_size rq) [] (s_next ss)) as [[items last] c].
-        simpl. auto.
-      * simpl. auto.
-    + unfold reader_send in H.
-      destruct (st_pending st <? c_limit cfg) eqn:Elim; [|discriminate].
+        apply Hsame; simpl; try rewrite Epc; reflexivity.
+      * apply Hsame; simpl; try rewrite Epc; reflexivity.
+    + (* the addition *)
+      unfold reader_add in H. destruct (st_pending st <? c_limit cfg) eqn:Elim; [|discriminate].
+      inversion H; subst. simpl in *. rewrite app_nil_r in *. split.
+      * rewrite mem_sum_app. simpl. lia.
+      * right. exists r0. split; [apply in_or_app; right; left; reflexivity|lia].
+    + (* the enqueue *)
+      unfold reader_send in H.
       destruct (N.of_nat (length (nth (s_sender ss) (st_senders st) [])) <=? c_maxtasks cfg); [|discriminate].
       destruct (Nat.ltb (s_sender ss) (length (st_senders st))) eqn:Eidx; [|discriminate].
-      simpl in H. inversion H; subst. simpl.
-      apply Nat.ltb_lt in Eidx. split.
+      simpl in H. inversion H; subst. simpl in *. rewrite app_nil_r.
+      apply Nat.ltb_lt in Eidx. rewrite mem_sum_app in HI. simpl in HI. split.
       * rewrite upd_snoc_sum by exact Eidx. lia.
-      * right. exists r0. split; [apply In_upd_snoc_new; exact Eidx|lia].
+      * destruct HB as [HB|[rw [Hin Hlt]]]; [left; exact HB|right].
+        exists rw. split; [|exact Hlt]. apply in_app_or in Hin. destruct Hin as [Hin|[<-|[]]].
+        -- apply In_upd_snoc_old. exact Hin.
+        -- apply In_upd_snoc_new. exact Eidx.
   - destruct (nth i (st_senders st) []) as [|r0 q] eqn:En; [discriminate|].
     inversion H; subst. simpl.
-    pose proof (upd_tl_sum cfg _ _ _ _ En) as Hsum.
+    pose proof (upd_tl_sum cfg _ _ _ _ En) as Hsum. rewrite mem_sum_app in *.
     split; [lia|].
     destruct (N.eq_dec (st_pending st - resp_mem cfg r0) 0) as [E0|E0]; [left; exact E0|right].
-    assert (Hne : mem_sum cfg (concat (list_upd i (fun q => tl q) (st_senders st))) <> 0) by lia.
+    assert (Hne : mem_sum cfg (concat (list_upd i (fun q => tl q) (st_senders st)) ++ pc_added (st_reader st)) <> 0)
+      by (rewrite mem_sum_app; lia).
     destruct HB as [HB|[rw [Hin Hlt]]]; [lia|].
-    destruct (In_upd_tl_keep _ _ _ _ _ En Hin) as [Hk|Hk].
-    + exists rw. split; [exact Hk|lia].
-    + subst rw. destruct (mem_sum_pos_In _ _ Hne) as [r1 Hr1]. exists r1. split; [exact Hr1|lia].
+    apply in_app_or in Hin. destruct Hin as [Hin|Hin].
+    + destruct (In_upd_tl_keep _ _ _ _ _ En Hin) as [Hk|Hk].
+      * exists rw. split; [apply in_or_app; left; exact Hk|lia].
+      * subst rw. destruct (mem_sum_pos_In _ _ Hne) as [r1 Hr1]. exists r1. split; [exact Hr1|lia].
+    + exists rw. split; [apply in_or_app; right; exact Hin|lia].
 Qed.
 
 Lemma run_pending : forall v cfg db ops st st' evs,
@@ -127,17 +149,18 @@ Qed.
 Lemma concat_repeat_nil : forall n, concat (repeat (@nil resp) n) = [].
 Proof. induction n; simpl; auto. Qed.
 
-(* T4: in every reachable state the pending memory is the memory of the queued responses and
-   exceeds the limit by less than one response *)
+(* T4: in every reachable state the pending memory is the memory of the responses the reader
+   has accounted for and that are not yet acknowledged by a sender worker (queued, being sent,
+   or added and waiting in Enqueue), and exceeds the limit by less than one of them *)
 Lemma pending_bounded : forall v cfg db ops,
   let st := fst (run v cfg db (init cfg) ops) in
-  st_pending st = mem_sum cfg (concat (st_senders st)) /\
+  st_pending st = mem_sum cfg (accounted st) /\
   (st_pending st = 0 \/
-   exists r, In r (concat (st_senders st)) /\ st_pending st < c_limit cfg + resp_mem cfg r).
+   exists r, In r (accounted st) /\ st_pending st < c_limit cfg + resp_mem cfg r).
 Proof.
   intros v cfg db ops. destruct (run v cfg db (init cfg) ops) as [st' evs] eqn:Er. simpl.
   eapply (run_pending v cfg db ops (init cfg)); eauto.
-  - unfold pend_inv, init. simpl. rewrite concat_repeat_nil. reflexivity.
+  - unfold pend_inv, accounted, init. simpl. rewrite concat_repeat_nil. reflexivity.
   - left. reflexivity.
 Qed.
 
@@ -163,7 +186,7 @@ Definition sess_wf (cfg : config) (ss : sess) : Prop := s_sender ss = sender_of 
 Definition pc_wf (cfg : config) (pc : rpc) : Prop :=
   match pc with
   | RChunk _ _ ss => sess_wf cfg ss
-  | RSend _ _ ss r => sess_wf cfg ss /\ rs_inc r = s_inc ss
+  | RSend _ _ ss r | REnq _ _ ss r => sess_wf cfg ss /\ rs_inc r = s_inc ss
   | _ => True
   end.
 
@@ -273,7 +296,7 @@ Proof.
   - destruct (st_reader st) eqn:Epc; try discriminate. destruct (st_chunreg st) as [|p0 rest0]; [discriminate|].
     inversion H; subst. split; [|apply Hsame; reflexivity].
     constructor; simpl; auto. apply Forall_del_all. exact HT.
-  - destruct (st_reader st) as [|rq|rq i ss|rq i ss r0] eqn:Epc; try discriminate.
+  - destruct (st_reader st) as [|rq|rq i ss|rq i ss r0|rq i ss r0] eqn:Epc; try discriminate.
     + destruct (st_pending st <? c_limit cfg); [|discriminate].
       destruct (reader_top v cfg st rq) as [st1 e1] eqn:Et. inversion H; subst.
       destruct (reader_top_wf _ _ _ _ _ _ HT Et) as [HT1 [HPC1 [He Hs]]].
@@ -286,8 +309,9 @@ Proof.
         constructor; simpl; auto.
         apply Forall_sess_put; [exact HT|exact HPC].
       * split; [constructor; simpl; auto|apply Hsame; reflexivity].
+    + unfold reader_add in H. destruct (st_pending st <? c_limit cfg); [|discriminate].
+      inversion H; subst. split; [constructor; simpl; auto|apply Hsame; reflexivity].
     + unfold reader_send in H.
-      destruct (st_pending st <? c_limit cfg); [|discriminate].
       destruct (N.of_nat (length (nth (s_sender ss) (st_senders st) [])) <=? c_maxtasks cfg); [|discriminate].
       destruct (Nat.ltb (s_sender ss) (length (st_senders st))) eqn:Eidx; [|discriminate].
       simpl in H. inversion H; subst. apply Nat.ltb_lt in Eidx. simpl in HPC. destruct HPC as [Hwf Hinc].
